@@ -532,7 +532,7 @@ PROPS["C06"] = dict(engine="conc", profiles=[("conc", 1, False)], n_ops=200, qui
 TB_KINDS = {"block-bytes", "block-decode", "block-decode-back", "impl-iter", "impl-iter-rev", "point-read", "point-read-model",
             "bloom-bytes", "bloom-build", "bloom-false-negative", "bloom-decode", "bloom-contains", "encode-error", "bloom-reader-error",
             "tbench-crash"}
-PROPS["C12"] = dict(engine="tree", profiles=[("table", 3, False), ("table", 1, True)], n_ops=0,
+PROPS["C12"] = dict(engine="tree", profiles=[("table", 3, False), ("table", 1, True), ("ingest", 1, False)], n_ops=110,
                     quick=64, thorough=2000, tbench=dict(quick=96, thorough=6000),
                     relevant=lambda f: f["kind"] in (TB_KINDS | BLOCK_KINDS | {"oracle-get", "oracle-contains", "oracle-range", "readpaths", "inv", "reopen-diff", "agree", "resolve"} | COMMON_KINDS),
                     nontrivial=lambda st: (st.get("point_reads_hit", 0) >= 1 and st.get("blocks", 0) >= 1) or (st.get("gets_from_tables", 0) >= 1 and st.get("reopen_compared", 0) >= 1))
@@ -711,7 +711,7 @@ def corrupt_engine(prop, tier, seed, count_override, coq):
     # thorough: many more positions per file; enumerating every byte of every file with the
     # two-phase read-out (reads, major compaction, reads again) takes hours and is not used
     exhaustive = False
-    samples = "120" if tier == "thorough" else "14"
+    samples = "40" if tier == "thorough" else "14"
     jobs = []
     for i in range(n):
         jobs.append((seed * 1000003 + i, "blob" if i % 3 == 2 else "std"))
